@@ -153,4 +153,52 @@ for step in cfg["steps"]:
     kwargs = {k: gen_obj.build(s, perm) for k, s in step["kwargs"].items()}
     rec["plain"] = run(plain, args, kwargs, is_async)
     out.append(rec)
-json.dump(dict(steps=out, joblib=joblib.__file__), open(sys.argv[2], "w"), default=repr)
+# ---------------------------------------------------------------------------
+# overlapping calls of ONE cached wrapper: whatever a wrapper remembers between the start and the end of a computation must
+# belong to that computation
+overlap_errors = []
+if cfg.get("overlap"):
+    import threading
+    import time
+    from vlib import memhist_support as ms
+    tag = "s%d" % random.Random(len(cfg["steps"])).randrange(1000)
+    try:
+        # (a) recursion through the wrapper
+        ms.REC = cache(ms.rec)
+        top = ms.REC(4, tag)
+        for k in (4, 3, 2, 1, 0, 4):
+            got, want = ms.REC(k, tag), ms.rec_plain(k, tag)
+            if got != want:
+                overlap_errors.append(f"recursion: rec({k}) returned {got!r} after rec(4) was computed through the cached wrapper, expected {want!r}")
+                break
+        # (b) two threads: the second call starts while the first computation is in flight and finishes first
+        SLOW = cache(ms.slow, ignore=["started", "go"])
+        started1, go1 = cfg["dir"] + f"/ov_started_{os.getpid()}", cfg["dir"] + f"/ov_go_{os.getpid()}"
+        res = {}
+        t1 = threading.Thread(target=lambda: res.__setitem__(1, SLOW(1, tag, started=started1, go=go1)))
+        t1.start()
+        t0 = time.time()
+        while not os.path.exists(started1) and time.time() - t0 < 10:
+            time.sleep(0.002)
+        res[2] = SLOW(2, tag)            # a complete miss of another key inside the first one
+        open(go1, "w").close()
+        t1.join(20)
+        for x in (1, 2, 1):
+            for how in ("call", "shelve"):
+                got = SLOW(x, tag) if how == "call" else SLOW.call_and_shelve(x, tag).get()
+                if got != ("slow", tag, x) or res.get(x) != ("slow", tag, x):
+                    overlap_errors.append(f"threads: slow({x}) returned {got!r} ({how}; the computing call itself returned {res.get(x)!r}) after slow(1) and slow(2) overlapped in two threads")
+                    break
+        # (c) two asyncio tasks awaiting the same cached coroutine function
+        ASLOW = cache(ms.aslow)
+
+        async def both():
+            return await asyncio.gather(ASLOW(1, tag), ASLOW(2, tag), ASLOW(3, tag))
+        first = asyncio.run(both())
+        again = [asyncio.run(ASLOW(x, tag)) for x in (1, 2, 3)]
+        want = [("aslow", tag, x) for x in (1, 2, 3)]
+        if list(first) != want or again != want:
+            overlap_errors.append(f"asyncio: three overlapping tasks returned {first!r}, the same calls afterwards {again!r}, expected {want!r}")
+    except BaseException as e:  # noqa
+        overlap_errors.append(f"overlapping calls raised {type(e).__name__}: {e}"[:300])
+json.dump(dict(steps=out, joblib=joblib.__file__, overlap_errors=overlap_errors, overlap_done=bool(cfg.get("overlap"))), open(sys.argv[2], "w"), default=repr)
